@@ -924,6 +924,15 @@ func detectNestedAggregationRecursive(expr string, inAggregation, inAnalytic boo
 	return nil
 }
 
+// isSingleStringLiteral reports whether s is one quoted literal: it starts and ends with the same quote character
+// and that character does not occur in between ('a(b' == 'x' starts and ends with a quote but is a comparison).
+func isSingleStringLiteral(s string) bool {
+	if len(s) < 2 || (s[0] != '\'' && s[0] != '"') || s[len(s)-1] != s[0] {
+		return false
+	}
+	return strings.IndexByte(s[1:len(s)-1], s[0]) < 0
+}
+
 // Parse aggregation function and return expression information
 func ParseAggregateTypeWithExpression(exprStr string) (aggType aggregator.AggregateType, name string, expression string, allFields []string, err error) {
 	// 首先检测是否存在嵌套聚合函数
@@ -983,8 +992,7 @@ func ParseAggregateTypeWithExpression(exprStr string) (aggType aggregator.Aggreg
 
 		// Check if it's a string literal
 		trimmed := strings.TrimSpace(exprStr)
-		if (strings.HasPrefix(trimmed, "'") && strings.HasSuffix(trimmed, "'")) ||
-			(strings.HasPrefix(trimmed, "\"") && strings.HasSuffix(trimmed, "\"")) {
+		if isSingleStringLiteral(trimmed) {
 			// String literal: use content without quotes as field name
 			fieldName := trimmed[1 : len(trimmed)-1]
 			return "expression", fieldName, exprStr, nil, nil
@@ -1045,8 +1053,21 @@ func ParseAggregateTypeWithExpression(exprStr string) (aggType aggregator.Aggreg
 
 // extractFunctionName extracts function name from expression
 func extractFunctionName(expr string) string {
-	// Find first left parenthesis
-	parenIndex := strings.Index(expr, "(")
+	// Find first left parenthesis outside string literals ('a(b' == 'x' has none)
+	parenIndex := -1
+	var quote byte
+	for i := 0; i < len(expr) && parenIndex < 0; i++ {
+		switch c := expr[i]; {
+		case quote != 0:
+			if c == quote {
+				quote = 0
+			}
+		case c == '\'' || c == '"' || c == '`':
+			quote = c
+		case c == '(':
+			parenIndex = i
+		}
+	}
 	if parenIndex == -1 {
 		return ""
 	}
@@ -1434,8 +1455,7 @@ func buildSelectFieldsWithExpressions(fields []Field) (
 		if alias == "" {
 			// For string literals without alias, use the content without quotes as alias
 			trimmed := strings.TrimSpace(f.Expression)
-			if (strings.HasPrefix(trimmed, "'") && strings.HasSuffix(trimmed, "'")) ||
-				(strings.HasPrefix(trimmed, "\"") && strings.HasSuffix(trimmed, "\"")) {
+			if isSingleStringLiteral(trimmed) {
 				alias = trimmed[1 : len(trimmed)-1] // Remove quotes
 			} else {
 				alias = f.Expression
